@@ -33,7 +33,7 @@ func cxTerm(ids []int) string {
 }
 
 func runC18(o *out, r *rng, thorough bool, replay string) {
-	o.Rule = "cache histories: lookups (present, absent, zero key), own broadcasts, admitted remote broadcasts incl. floods of unsolicited chains larger than the discovered capacity, prunes, over several instances with small capacities (wanted 2..6, discovered 2..5), fed synchronously to the real PubSubChainExchange through an accessor and replayed on the model; admission: the real pubsub validator on constructed messages (undecodable, empty, malformed, past, too far ahead, timestamp window, base mismatch) with the mock clock; non-trivial = >=1 eviction happened or >=1 placeholder existed"
+	o.Rule = "cache histories: lookups (present, absent, zero key), own broadcasts, admitted remote broadcasts incl. floods of unsolicited chains larger than the discovered capacity, prunes, over several instances with small capacities (wanted 2..6, discovered 2..5), fed synchronously to the real PubSubChainExchange through an accessor and replayed on the model; admission: the real pubsub validator on constructed messages (undecodable, empty, malformed, past, too far ahead, timestamp window, base mismatch) with the mock clock; non-trivial = >=1 eviction happened or >=1 placeholder existed; admitted broadcasts are cached after the participant has advanced by 0..2 instances (nothing pruned) and must be retrievable for their instance"
 	ctx := context.Background()
 	nh := 300
 	if thorough {
